@@ -35,12 +35,14 @@ class Abort(BaseException):
 
 class Monitor:
     __slots__ = ("pushes", "matches", "rollbacks", "max_depth", "depth_bound", "step_budget",
-                 "suffix_symbols", "suffix_pushes")
+                 "suffix_symbols", "suffix_pushes", "seq_symbols", "seq_pushes")
 
     def __init__(self):
         self.reset(10 ** 9, STEP_BUDGET, ())
 
-    def reset(self, depth_bound, step_budget, suffix_symbols):
+    def reset(self, depth_bound, step_budget, suffix_symbols, seq_symbols=()):
+        self.seq_symbols = seq_symbols
+        self.seq_pushes = []        # (start token position, roll-backs so far) of every sequence-symbol push
         self.pushes = 0
         self.matches = 0
         self.rollbacks = 0
@@ -53,6 +55,17 @@ class Monitor:
     @property
     def steps(self):
         return self.pushes + self.matches + self.rollbacks
+
+    def sequence_reentered_after_rollback(self):
+        """True iff a sequence symbol was entered, the parser rolled back, and a sequence symbol was entered
+        again at a later token that lies inside the span the earlier attempt had reached."""
+        sp = self.seq_pushes
+        for i, (p1, r1) in enumerate(sp):
+            reach = max(p for p, r in sp if r == r1)
+            for p2, r2 in sp[i + 1:]:
+                if r2 > r1 and p1 < p2 <= reach:
+                    return True
+        return False
 
 
 MON = Monitor()
@@ -81,6 +94,8 @@ def install():
         mon.pushes += 1
         if symbol in mon.suffix_symbols:
             mon.suffix_pushes += 1
+        if symbol in mon.seq_symbols:
+            mon.seq_pushes.append((token_pos, mon.rollbacks))
         if mon.pushes + mon.matches + mon.rollbacks > mon.step_budget:
             raise Abort("step-budget")
         if mon.pushes > mon.depth_bound:
@@ -154,13 +169,21 @@ class Watchdog:
         return False
 
 
-def build(cfg, start, prods, smart):
+_NO_SKIP_ARG = object()
+
+
+def build(cfg, start, prods, smart, skip=_NO_SKIP_ARG):
     """Real constructor.  -> ("ok", parser) | ("recursive", exc) | ("grammar-error", exc) |
-    ("assertion", exc) | ("raised:<Type>", exc) | ("abort:<why>", None)"""
-    productions = {x: [a if a else None for a in alts] for x, alts in prods}
+    ("assertion", exc) | ("raised:<Type>", exc) | ("abort:<why>", None)
+    An alternative list (SEQ, s1, ...) becomes the template ProdSequence(s1, ...); ``skip`` (a value of
+    models.grammar.SKIP_OPTIONS) is handed over as the constructor argument skip_tokens."""
+    from models.grammar import is_seq, skip_value
+    productions = {x: (impl.ProdSequence(*alts[1:]) if is_seq(alts) else [a if a else None for a in alts])
+                   for x, alts in prods}
+    kw = {} if skip is _NO_SKIP_ARG else {"skip_tokens": skip_value(skip)}
     try:
         p = impl.LLParser(cfg.tokenizer_str, productions=productions, synonyms=cfg.synonyms,
-                          keywords=cfg.keywords, start_symbol_name=start, smart_factorization=smart)
+                          keywords=cfg.keywords, start_symbol_name=start, smart_factorization=smart, **kw)
     except impl.GrammarIsRecursive as e:
         return "recursive", e
     except impl.GrammarError as e:
@@ -182,7 +205,8 @@ def parse(parser, cfg, toks, bound=None, step_budget=STEP_BUDGET, start_symbol=N
     global _ACTIVE
     install()
     suffix = getattr(parser, "_suffix_symbols", ())
-    MON.reset(depth_bound(parser, len(toks)) if bound is None else bound, step_budget, suffix)
+    MON.reset(depth_bound(parser, len(toks)) if bound is None else bound, step_budget, suffix,
+              getattr(parser, "_seq_symbols", ()))
     _ACTIVE = True
     try:
         if start_symbol is None:
